@@ -1,6 +1,7 @@
 """C10 — FKM-nonlinear assessment: batch independence, sample insensitivity, monotonicity (metamorphic walks decided by TLC)."""
 import os, math, random, warnings
 import numpy as np
+import pandas as pd
 from .. import SPEC, tlc, par, findings, assess
 from ..tlaparse import parse_state
 
@@ -153,9 +154,92 @@ def probe_findings(chk):
             chk.machinery.append('probe of finding %s failed: %r' % (f.get('id'), ex))
 
 
+def _praj_calculator(points, nb):
+    """A real DamageCalculatorPRAJ on a crafted second-pass collective: point p has d[i] hystereses in class i (at the class mid) and
+    its current endurance threshold just above the mid of class q."""
+    import pylife.strength.woehler_fkm_nonlinear  # noqa
+    from pylife.strength.fkm_nonlinear.damage_calculator import DamageCalculatorPRAJ
+    kmax, pde = 1024.0, 1.0
+    edges = np.logspace(np.log10(kmax), np.log10(pde), nb + 1)
+    mids = (edges[:-1] + edges[1:]) / 2
+    H = max(1, max(sum(pt['d']) for pt in points))
+    rows = []
+    cols = []
+    for pt in points:
+        P = [mids[i] for i, k in enumerate(pt['d']) for _ in range(k)]
+        cols.append(P + [0.5 * pde] * (H - len(P)))            # padding below P_RAJ_D_e: counted in H_0, in no class
+    for hi in range(H):
+        for pi, pt in enumerate(points):
+            rows.append({'hysteresis_index': hi, 'assessment_point_index': pi, 'S_min': 0.0, 'P_RAJ': cols[pi][hi], 'D': 1e-9,
+                         'P_RAJ_D': mids[pt['q']] * 1.01, 'run_index': 2})
+    df = pd.DataFrame(rows).set_index(['hysteresis_index', 'assessment_point_index'])
+    ap = pd.Series({'P_RAJ_klass_max': kmax, 'P_RAJ_D_e': pde, 'P_RAJ_D_0': 8.0, 'd_RAJ': -0.5, 'a_0': 0.01, 'a_end': 0.5, 'l_star': 0.02, 'P_RAJ_Z': 4096.0,
+                    'n_bins': nb, 'MatGroupFKM': 'Steel'})
+    wc = pd.Series({'P_RAJ_Z': 4096.0, 'P_RAJ_D_0': 8.0, 'd_RAJ': -0.5}).woehler_P_RAJ
+    with warnings.catch_warnings():
+        warnings.simplefilter('ignore')
+        dc = DamageCalculatorPRAJ(df, ap, wc)
+    return dc, mids
+
+
+def _replay_praj(args):
+    """MC_PRAJAccum states into the real calculator: x-bar of every point = the double sum over the calculator's own class tables, and = the point alone."""
+    blocks, nb = args
+    n, nontriv, viol = 0, [], []
+    for b in blocks:
+        st = parse_state(b.strip())
+        batch = [{'q': pt['q'], 'd': list(pt['d'])} for pt in st['batch']]
+        n += 1
+        case = {'classes': nb, 'points_threshold_class_and_class_counts': [[pt['q'], pt['d']] for pt in batch]}
+        try:
+            dc, mids = _praj_calculator(batch, nb)
+            got = np.atleast_1d(np.asarray(dc._xbar_minus_2, dtype=np.float64))
+            for p, pt in enumerate(batch):
+                last = mids[pt['q']] * 1.01
+                dmg = [(pt['d'][i] / float(np.atleast_1d(dc._component_woehler_curve_P_RAJ.calc_N(mids[i], P_RAJ_D=last))[0]) if mids[i] > last else 0.0) for i in range(nb)]
+                want = 0.0
+                for j in range(pt['q'], nb - 1):
+                    den = sum(dmg[:j + 1])
+                    want += float(np.atleast_1d(dc._f(j + 1) - dc._f(j))[0]) / den if abs(den) > 1e-13 else np.inf
+                ok = (np.isinf(want) and np.isinf(got[p])) or abs(got[p] - want) <= 1e-9 * abs(want)
+                if not ok:
+                    viol.append(('P_RAJ lifetime multiple (x-bar - 2) of a point differs from eq. 2.9-138 evaluated on the calculator\'s own class tables'
+                                 + (' — it depends on the co-assessed point' if len(batch) > 1 else ''), {**case, 'point': p}, want, float(got[p])))
+                    break
+            if len(batch) > 1 and batch[0]['q'] != batch[1]['q']:
+                nontriv.append((nb, tuple((pt['q'], tuple(pt['d'])) for pt in batch)))
+        except Exception as ex:
+            viol.append(('DamageCalculatorPRAJ raised %r on a crafted collective' % ex, case, None, None))
+    return n, nontriv, viol[:4]
+
+
+def check_praj_accumulation(chk, quick):
+    tla = os.path.join(SPEC, 'fkmnl', 'MC_PRAJAccum.tla')
+    cfgname = 'MC_PRAJAccum_fixed.cfg' if quick else 'MC_PRAJAccum_thorough.cfg'
+    res = tlc.run(tla, os.path.join(SPEC, 'fkmnl', cfgname), dump=True, timeout=900)
+    chk.tlc(cfgname, res, 'P_RAJ crack-growth accumulation: the batched loop as coded = the double sum of eq. 2.9-138 per point; batch independent')
+    if res.violated:
+        chk.machinery.append('model invariant %s violated: %s' % (res.violated, res.trace[-1:]))
+    if not (res.dump_path and os.path.exists(res.dump_path)):
+        return
+    nb = 4 if quick else 5
+    tot = 0
+    for n, nontriv, viol in par.pmap(_replay_praj, [(p, nb) for p in par.split_dump(res.dump_path, 32)], chunksize=1):
+        tot += n
+        for x in nontriv:
+            chk.nontrivial(('praj',) + x)
+        for what, case, exp, got in viol:
+            chk.violation(what, case, exp, got, part='praj_accumulation')
+    os.remove(res.dump_path)
+    chk.evals(tot)
+    chk.cov['traces_validated_against_impl'] += tot
+    chk.part('praj_accumulation', batches=tot)
+
+
 def run(chk):
     quick = chk.tier == 'quick'
     probe_findings(chk)
+    check_praj_accumulation(chk, quick)
     cfgname = 'MC_Assessment_quick.cfg' if quick else 'MC_Assessment_thorough.cfg'
     res = tlc.run(TLA, os.path.join(SPEC, 'assessment', cfgname), dump=True, timeout=3000, heap='12g')
     chk.tlc(cfgname, res, 'configuration graph of the metamorphic actions; every state is one walk (hist)')
